@@ -9,6 +9,7 @@ package main
 // into text with %v, so no *net.OpError is left to scrub).
 
 import (
+	"bufio"
 	"context"
 	"errors"
 	"fmt"
@@ -16,6 +17,7 @@ import (
 	"net"
 	"os"
 	"path/filepath"
+	"strconv"
 	"strings"
 	"syscall"
 
@@ -98,6 +100,37 @@ func c17V4OnlyGeoIP() geoip.Database {
 	_ = os.Remove(cc)
 	_ = os.Remove(asn)
 	return db
+}
+
+// c17RedisRefusingPublish speaks enough of the redis protocol to refuse every PUBLISH with an error reply.
+func c17RedisRefusingPublish(c net.Conn) {
+	defer c.Close()
+	r := bufio.NewReader(c)
+	for {
+		line, err := r.ReadString('\n')
+		if err != nil || !strings.HasPrefix(line, "*") {
+			return
+		}
+		n, _ := strconv.Atoi(strings.TrimSpace(line[1:]))
+		var args [][]byte
+		for i := 0; i < n; i++ {
+			l, err := r.ReadString('\n')
+			if err != nil || !strings.HasPrefix(l, "$") {
+				return
+			}
+			sz, _ := strconv.Atoi(strings.TrimSpace(l[1:]))
+			buf := make([]byte, sz+2)
+			if _, err := io.ReadFull(r, buf); err != nil {
+				return
+			}
+			args = append(args, buf[:sz])
+		}
+		if len(args) > 0 && strings.EqualFold(string(args[0]), "PUBLISH") {
+			_, _ = c.Write([]byte("-OOM command not allowed when used memory > 'maxmemory'.\r\n"))
+		} else {
+			_, _ = c.Write([]byte("+OK\r\n"))
+		}
+	}
 }
 
 // c17Connecting is the real DTLS transport (parameters, identifier, port) with a scripted Connect.
@@ -276,6 +309,52 @@ func verifC17Other(e *venum.E, a *vh.Args, only string, capf *os.File) {
 				}
 				judge(id, needles(cip), key)
 			}
+		}
+	}
+	// (4) the detector channel does not take the announcement: the redis connection is refused, or the server answers
+	// PUBLISH with an error reply (out of memory, loading, read-only replica). The announcement carries the registrant's
+	// address as text; whatever the station says about the failure must not.
+	for _, mode := range []string{"refused", "error-reply"} {
+		for _, cip := range clients {
+			id := fmt.Sprintf("part=detector-channel;redis=%s;client=%v", mode, cip)
+			if !run(id) {
+				continue
+			}
+			reset()
+			cj.VerifSetRedis(func() (net.Conn, error) {
+				if mode == "refused" {
+					return nil, &net.OpError{Op: "dial", Net: "tcp", Addr: &net.TCPAddr{IP: net.IPv4(127, 0, 0, 1), Port: 6379}, Err: os.NewSyscallError("connect", syscall.ECONNREFUSED)}
+				}
+				c, srv := net.Pipe()
+				go c17RedisRefusingPublish(srv)
+				return c, nil
+			})
+			rm := vfix.Manager(nil, vfix.Selector(vfix.SubnetsTOML), &vfix.Tester{}, vfix.AllWrapping, capf)
+			sharedLogger = rm.Logger
+			addr := []byte(cip)
+			if v4 := cip.To4(); v4 != nil && len(cip) == 4 {
+				addr = v4
+			}
+			m := vfix.Msg{Secret: vfix.Secret(31), Transport: pb.TransportType_Min, V4: true, V6: true, Gen: 1, LibVer: 4, Covert: "93.184.216.34:443", Source: pb.RegistrationSource_API, Addr: addr}
+			if p, msg, site := venum.Guard(func() {
+				regs, err := rm.VerifParseRegMessage(m.Bytes())
+				if err != nil {
+					return
+				}
+				for _, r := range regs {
+					if r == nil {
+						continue
+					}
+					rm.VerifIngest(r)
+					rm.MarkActive(r)
+				}
+				rm.VerifCleanup()
+			}); p {
+				e.Violation("panic:"+site, id+": "+msg, map[string]any{"case": id})
+				continue
+			}
+			cj.GetProxyStats().PrintAndReset(log.New(capf, "[STATS] ", 0))
+			judge(id, needles(cip), "client-address-in-log:detector-channel:"+mode)
 		}
 	}
 	// (3) accept path on a real loopback socket: duplicating the descriptor fails (descriptor limit reached)
